@@ -1003,9 +1003,18 @@ def contexts_active_in_frame(
         # Infer the context manager being exited based on the
         # self argument to its __exit__ or __aexit__ method in
         # the next frame
+        # -- if it is one: code that the interpreter runs on its own
+        # right after the exit call has returned (a signal handler, a
+        # finalizer) finds this frame still positioned on that call, and
+        # its first argument is something else entirely.
         args = inspect.getargvalues(next_inner)
         if args.args:
-            ret[-1].obj = args.locals[args.args[0]]
+            candidate = args.locals.get(args.args[0])
+            exit_name = "__aexit__" if ret[-1].is_async else "__exit__"
+            for cls in type(candidate).__mro__:
+                if exit_name in vars(cls):
+                    ret[-1].obj = candidate
+                    break
 
     return ret
 
